@@ -67,10 +67,13 @@ def run(ctx, rep):
                       ('D4.scalar', 'the scalar branch and the vector branch of chandrupatla compute the same interpolation formula'),
                       ('D5.tol', "bisect's default tolerance is at most 1e-8 and its exit test compares the bracket width with it")):
         rep.rule(rid, text)
+    rep.rule('D6.float', 'an array that receives computed points by in-place lane stores (x[mask] = point) is created as a float array: '
+             'integer brackets must not truncate the points stored into them')
     bisect(ctx, rep)
     chandrupatla(ctx, rep)
     for name in ('bisect', 'chandrupatla'):
         lanes(ctx, rep, prog.func(OPT + name))
+        float_buffers(ctx, rep, prog.func(OPT + name))
 
 
 def bisect(ctx, rep):
@@ -441,6 +444,108 @@ def _choices(call):
         else:
             out.append(a)
     return out
+
+
+FLOAT_NAMES = {'float', 'np.float64', 'numpy.float64', 'np.double', 'np.float_', 'np.longdouble', "'float'", "'float64'", "'f8'", "'d'"}
+COPYING = {'array', 'asarray', 'asanyarray', 'copy', 'ascontiguousarray', 'atleast_1d', 'ravel', 'squeeze', 'flatten', 'reshape'}
+
+
+def _floatness(prog, fn, e, depth=0):
+    """True: the array is float whatever the caller passed; False: it keeps the dtype of a caller's array (positive
+    evidence: a dtype-preserving copy of a parameter); None: not derived."""
+    if depth > 12 or e is None:
+        return None
+    if isinstance(e, ast.Name):
+        if e.id in fn.params and not any(isinstance(a, ast.Assign) and any(isinstance(t, ast.Name) and t.id == e.id for t in a.targets)
+                                         for a in walk_no_nested(fn.node)):
+            return False
+        defs = [a.value for a in walk_no_nested(fn.node) if isinstance(a, ast.Assign) and len(a.targets) == 1 and isinstance(a.targets[0], ast.Name)
+                and a.targets[0].id == e.id]
+        # the first definition in source order is what the in-place stores write into (a parameter re-bound to its float copy)
+        if not defs:
+            return None
+        rs = [_floatness(prog, fn, d, depth + 1) if not (isinstance(d, ast.Name) and d.id == e.id) else None for d in defs]
+        if all(r is True for r in rs):
+            return True
+        return False if any(r is False for r in rs) and not any(r is None for r in rs) else None
+    if isinstance(e, ast.Constant):
+        return isinstance(e.value, float)
+    if isinstance(e, ast.BinOp):
+        if isinstance(e.op, ast.Div):
+            return True
+        l, r = _floatness(prog, fn, e.left, depth + 1), _floatness(prog, fn, e.right, depth + 1)
+        if l is True or r is True:
+            return True
+        return False if l is False and r is False else None
+    if isinstance(e, ast.Call):
+        leaf = call_name(e)
+        dt = kwarg(e, 'dtype')
+        if leaf == 'astype' and e.args:
+            dt = e.args[0]
+        if dt is not None:
+            txt = ast.unparse(dt)
+            return True if txt in FLOAT_NAMES else (False if txt in ('int', 'bool', 'np.int64', 'np.int32', 'np.intp') else None)
+        if leaf in ('zeros', 'ones', 'empty', 'linspace'):
+            return True
+        if leaf == 'full' and len(e.args) >= 2:
+            return _floatness(prog, fn, e.args[1], depth + 1)
+        if leaf in ('zeros_like', 'ones_like', 'empty_like', 'full_like') and e.args:
+            return _floatness(prog, fn, e.args[0], depth + 1)
+        if leaf == 'float':
+            return True
+        if leaf in COPYING:
+            src = e.args[0] if (e.args and not (isinstance(e.func, ast.Attribute) and not isinstance(e.func.value, ast.Name))) else None
+            if isinstance(e.func, ast.Attribute) and not (isinstance(e.func.value, ast.Name) and e.func.value.id in ('np', 'numpy')):
+                src = e.func.value  # x.copy(), x.ravel()
+            return _floatness(prog, fn, src, depth + 1) if src is not None else None
+    return None
+
+
+def float_buffers(ctx, rep, fn):
+    prog = ctx.prog
+    seen = set()
+    for s in walk_no_nested(fn.node):
+        if not (isinstance(s, ast.Assign) and len(s.targets) == 1 and isinstance(s.targets[0], ast.Subscript) and isinstance(s.targets[0].value, ast.Name)):
+            continue
+        name = s.targets[0].value.id
+        if name in seen:
+            continue
+        seen.add(name)
+        # the buffer as it is when the store happens: its latest whole-name definition before the store
+        defs = [a for a in walk_no_nested(fn.node) if isinstance(a, ast.Assign) and len(a.targets) == 1 and isinstance(a.targets[0], ast.Name)
+                and a.targets[0].id == name]
+        # a definition earlier in the same block is the one the store writes into
+        blk = None
+        for field in ('body', 'orelse', 'finalbody'):
+            lst = getattr(s._parent, field, None)
+            if isinstance(lst, list) and s in lst:
+                blk = lst
+        same = [d for d in defs if blk is not None and d in blk and blk.index(d) < blk.index(s)]
+        if same:
+            defs = [same[-1]]
+        if not defs:
+            if name in fn.params:
+                continue  # a store into the caller's own array: C20's concern
+            rep.undecided('D6.float', fn, s, f'where the buffer `{name}` is created is not recognised', construct=f'{fn.name}: buffer {name}')
+            continue
+        rs = []
+        for d in defs:
+            v = d.value
+            if isinstance(v, ast.Call) and call_name(v) in COPYING and v.args and isinstance(v.args[0], ast.Name) and v.args[0].id == name \
+                    and name in fn.params and kwarg(v, 'dtype') is None:
+                rs.append(False)   # x = np.copy(x) / np.array(x): the caller's dtype is kept
+            else:
+                rs.append(_floatness(prog, fn, v))
+        if all(r is True for r in rs):
+            rep.ok('D6.float', fn, defs[0], f'`{name}` is a float array before points are stored into it', construct=f'{fn.name}: buffer {name}')
+        elif any(r is False for r in rs):
+            bad = defs[rs.index(False)]
+            rep.bad('D6.float', fn, bad, f'`{name}` = `{short(bad.value, 50)}` keeps the dtype of the caller\'s array, and `{short(s, 50)}` stores computed points into it: '
+                    'with an integer bracket every stored point is truncated (the root is lost or the bracket stops shrinking)', construct=f'{fn.name}: buffer {name}')
+        else:
+            rep.undecided('D6.float', fn, defs[0], f'dtype of the buffer `{name}` (`{short(defs[0].value, 50)}`) is not derived', construct=f'{fn.name}: buffer {name}')
+    if not seen:
+        rep.ok('D6.float', fn, fn.node.name, 'no in-place lane store', construct=f'def {fn.name}: buffers')
 
 
 def _only_decides_exit(fn, node, depth):
